@@ -1,2 +1,3 @@
 (* C18_Proofs.v — lemmas for property C18 *)
 From Adb Require Import Base BaseProofs Generated C18_Model.
+Open Scope N_scope.
